@@ -68,3 +68,45 @@ Theorem C05_d1_binding : forall (K : Fld), FldOk K -> forall (M : Mod K), ModOk 
   ~ accepts K M H Gb G Hs bits Vs promises A A1 B LR y z e es r1 s1 d1'.
 Proof. intros K Kok M Mok H Gb G Hs Hi. exact (d1_binding K Kok M Mok H Gb G Hs Hi). Qed.
 Print Assumptions C05_d1_binding.
+
+(** The same three statements on the OPTIMISED verifier: [product] is the single multiscalar product the code-shaped
+    verifier evaluates for one proof under batch weight w.  If it is the identity for (r1, s1, d1) under some non-zero
+    weight, then for the altered scalar it is NOT the identity under any non-zero weight — the back end cannot find the
+    identity, so the verdict is an error.  (Composition of the textbook binding lemmas with C02_verifier_accepts_iff;
+    generator independence is the same hypothesis as above.) *)
+From BP Require Import Proofs.BindingTopP.
+Theorem C05_altered_r1_refused : forall (K : Fld), FldOk K -> forall (M : Mod K), ModOk K M -> forall (H : M) (Gb G Hs : list M),
+  independent K M H Gb G Hs ->
+  forall (bits a : nat) (Vs : list M) (promises : list (option N)) (A A1 B : M) (LR : list (M * M)) (y z e : K) (es : list K),
+  1 <= bits -> length promises = 2 ^ a -> (length promises * bits)%nat = 2 ^ length es ->
+  Forall (fun c => c <> f0 K) es -> y <> f0 K -> fsub K y (f1 K) <> f0 K -> e <> f0 K ->
+  length G = (length promises * bits)%nat -> length Hs = (length promises * bits)%nat -> length Vs = length promises -> length LR = length es ->
+  forall (r1 s1 : K) (d1 : list K) (delta w w' : K), w <> f0 K -> w' <> f0 K -> delta <> f0 K -> length d1 = length Gb ->
+  product K M H Gb G Hs bits Vs promises A A1 B LR y z e es r1 s1 d1 w = v0 M ->
+  product K M H Gb G Hs bits Vs promises A A1 B LR y z e es (fadd K r1 delta) s1 d1 w' <> v0 M.
+Proof. intros K Kok M Mok H Gb G Hs Hi. exact (altered_r1_refused K Kok M Mok H Gb G Hs Hi). Qed.
+Print Assumptions C05_altered_r1_refused.
+
+Theorem C05_altered_s1_refused : forall (K : Fld), FldOk K -> forall (M : Mod K), ModOk K M -> forall (H : M) (Gb G Hs : list M),
+  independent K M H Gb G Hs ->
+  forall (bits a : nat) (Vs : list M) (promises : list (option N)) (A A1 B : M) (LR : list (M * M)) (y z e : K) (es : list K),
+  1 <= bits -> length promises = 2 ^ a -> (length promises * bits)%nat = 2 ^ length es ->
+  Forall (fun c => c <> f0 K) es -> y <> f0 K -> fsub K y (f1 K) <> f0 K -> e <> f0 K ->
+  length G = (length promises * bits)%nat -> length Hs = (length promises * bits)%nat -> length Vs = length promises -> length LR = length es ->
+  forall (r1 s1 : K) (d1 : list K) (delta w w' : K), w <> f0 K -> w' <> f0 K -> delta <> f0 K -> length d1 = length Gb ->
+  product K M H Gb G Hs bits Vs promises A A1 B LR y z e es r1 s1 d1 w = v0 M ->
+  product K M H Gb G Hs bits Vs promises A A1 B LR y z e es r1 (fadd K s1 delta) d1 w' <> v0 M.
+Proof. intros K Kok M Mok H Gb G Hs Hi. exact (altered_s1_refused K Kok M Mok H Gb G Hs Hi). Qed.
+Print Assumptions C05_altered_s1_refused.
+
+Theorem C05_altered_d1_refused : forall (K : Fld), FldOk K -> forall (M : Mod K), ModOk K M -> forall (H : M) (Gb G Hs : list M),
+  independent K M H Gb G Hs ->
+  forall (bits a : nat) (Vs : list M) (promises : list (option N)) (A A1 B : M) (LR : list (M * M)) (y z e : K) (es : list K),
+  1 <= bits -> length promises = 2 ^ a -> (length promises * bits)%nat = 2 ^ length es ->
+  Forall (fun c => c <> f0 K) es -> y <> f0 K -> fsub K y (f1 K) <> f0 K ->
+  length G = (length promises * bits)%nat -> length Hs = (length promises * bits)%nat -> length Vs = length promises -> length LR = length es ->
+  forall (r1 s1 : K) (d1 d1' : list K) (w w' : K), w <> f0 K -> w' <> f0 K -> length d1 = length Gb -> length d1' = length Gb -> d1 <> d1' ->
+  product K M H Gb G Hs bits Vs promises A A1 B LR y z e es r1 s1 d1 w = v0 M ->
+  product K M H Gb G Hs bits Vs promises A A1 B LR y z e es r1 s1 d1' w' <> v0 M.
+Proof. intros K Kok M Mok H Gb G Hs Hi. exact (altered_d1_refused K Kok M Mok H Gb G Hs Hi). Qed.
+Print Assumptions C05_altered_d1_refused.
